@@ -402,11 +402,14 @@ def ctor_initial_value(c):
     RT = it.classv(mod.classes["RecordTensor"])
     dt, dur = c.real("dt"), c.real("dur")
     c.require(dt > 0, dur >= 0)
-    v0 = c.pw("initial_observation", "float", eshape=tz.Shape((3,)))
-    obs = c.pw("pushed_observation", "float", eshape=tz.Shape((3,)))
+    # observations may be SCALARS (0-dimensional): their shape () is falsy in Python although the storage is initialised
+    oshape = tz.Shape(c.choice("observation_shape", [(3,), ()]))
+    v0 = c.pw("initial_observation", "float", eshape=oshape)
+    obs = c.pw("pushed_observation", "float", eshape=oshape)
     owner = it.instantiate(Module, [], {})
     rec = it.instantiate(RT, [owner, "x", dt, dur, v0], {"inclusive": True})
     N = num(owner.fields["_x_constraints"][0])
+    tz.TIME_SIZES.append(N)
     data = owner.fields["_x_data"]
     k = c.int("k")
     c.require(0 <= k, k < N)
